@@ -100,14 +100,8 @@ Definition hyphen_upper (p : partial_t) : pred :=
   | _, _, _ => Including (partial_into p)
   end.
 Definition pred_is_unbounded (p : pred) : bool := match p with Unbounded => true | _ => false end.
-Definition hyphen_tbl (lower : option partial_t) (upper : partial_t) : option boundset :=
-  let up := hyphen_upper upper in
-  match lower with
-  | Some lo => bs_new (Lower (Including (partial_into lo))) (Upper up)
-  | None =>
-    if pred_is_unbounded up then at_least (Including (v3 0 0 0))
-    else at_most up
-  end.
+Definition hyphen_tbl (lower upper : partial_t) : option boundset :=
+  bs_new (Lower (Including (partial_into lower))) (Upper (hyphen_upper upper)).
 
 (** The fold of [range()] (after the repair): conjunction of the comparators of one
     alternative; an empty conjunction contributes no alternative. *)
@@ -224,24 +218,27 @@ Definition caret_p (s : str) : option (option boundset * str) :=
   | None => None
   end.
 
-(** [hyphen()]: [opt(partial_version)], [space1], "-", [space1], [partial_version]. *)
+(** [hyphen()]: [partial_version], [space1], "-", [space1], [partial_version]
+    (after the repair: the lower partial version is mandatory). *)
 Definition hyphen_p (s : str) : option (option boundset * str) :=
-  let '(lower, s1) :=
-    match partial_version s with Some (p, r) => (Some p, r) | None => (None, s) end in
-  match space1 s1 with
+  match partial_version s with
   | None => None
-  | Some s2 =>
-    match lit1 45 s2 with
-    | Some s3 =>
-      match space1 s3 with
-      | None => None
-      | Some s4 =>
-        match partial_version s4 with
-        | Some (up, r) => Some (hyphen_tbl lower up, r)
-        | None => None
-        end
-      end
+  | Some (lower, s1) =>
+    match space1 s1 with
     | None => None
+    | Some s2 =>
+      match lit1 45 s2 with
+      | Some s3 =>
+        match space1 s3 with
+        | None => None
+        | Some s4 =>
+          match partial_version s4 with
+          | Some (up, r) => Some (hyphen_tbl lower up, r)
+          | None => None
+          end
+        end
+      | None => None
+      end
     end
   end.
 
@@ -265,9 +262,6 @@ Definition terminated_p (p : str -> option (option boundset * str)) (s : str)
 
 (** [simple()]: never fails. *)
 Definition simple (s : str) : option boundset * str :=
-  match terminated_p hyphen_p s with
-  | Some x => x
-  | None =>
   match terminated_p primitive_p s with
   | Some x => x
   | None =>
@@ -280,7 +274,7 @@ Definition simple (s : str) : option boundset * str :=
   match terminated_p caret_p s with
   | Some x => x
   | None => (None, garbage s)
-  end end end end end.
+  end end end end.
 
 (** [separated(0.., simple, space1)]; [None] = out of fuel (proved impossible with
     fuel [length s]: every iteration consumes at least one blank). *)
@@ -298,11 +292,26 @@ Fixpoint simples_tail (fuel : nat) (s : str) : option (list (option boundset) * 
       end
     end
   end.
-Definition range_p (s : str) : option (list boundset * str) :=
+Definition simples_p (s : str) : option (list boundset * str) :=
   let '(b, s1) := simple s in
   match simples_tail (length s1) s1 with
   | Some (l, r) => Some (and_fold (flatten_opts (b :: l)), r)
   | None => None
+  end.
+
+(** [peek((space0, alt((literal("||"), eof))))]: what must follow a hyphen range *)
+Definition at_alt_end (s : str) : bool :=
+  match space0 s with
+  | [] => true
+  | r => match lit [124; 124] r with Some _ => true | None => false end
+  end.
+
+(** [range()] (after the repair): a hyphen range is a whole alternative; otherwise a
+    blank-separated comparator set. *)
+Definition range_p (s : str) : option (list boundset * str) :=
+  match hyphen_p s with
+  | Some (b, r) => if at_alt_end r then Some (opt_to_list b, r) else simples_p s
+  | None => simples_p s
   end.
 
 (** [logical_or()]: [delimited(space0, literal("||"), space0)]. *)
